@@ -1,9 +1,213 @@
 import BronVerif.Drive.Common
-/-! Driver handlers for C08. -/
-namespace BronVerif.Drive.C08
-open BronVerif BronVerif.Drive
+import BronVerif.Model.Curves
+import BronVerif.Model.Sigma
+/-!
+Driver handlers for C08 (sigma protocols, their compilers and compositions).
 
-def handle (op : String) (_args : List String) (_rhs : String) : Verdict :=
-  .unsupported ("C08 op " ++ op)
+Line shapes (`;` separates list entries whose own encoding may contain `,`):
+
+    verify   <kind> <cv> <params> <X> <A> <e> <Z>                 => accept|reject
+    fs       <kind> <cv> <params> <X> <A> <e> <eCtx> <Z>          => accept|reject
+    zk       <kind> <cv> <params> <X> <A> <e> <Z> <open:0|1>      => accept|reject
+    sim      <kind> <cv> <params> <X> <e> <A> <Z>                 => accept|reject
+    extract  <kind> <cv> <params> <X> <A> <e1> <Z1> <e2> <Z2>     => ok:<W>|err
+    and      <kind> <cv> <params> <Xs> <As> <e> <Zs>              => accept|reject
+    or       <kind> <cv> <params> <Xs> <As> <e> <es> <Zs>         => accept|reject
+    fischlin <kind> <cv> <params> <rho> <X> <As> <es> <Zs> <ts>   => accept|reject
+    batch    <cv> <G> <Xs> <A> <e> <Z>   /  batchfs … <e> <eCtx> <Z>  /  batchsim <cv> <G> <Xs> <e> <A> <Z>
+    elog     <cv> <G,PK,H> <X1> <X2> <A1> <A2> <e> <Z1> <Z2>      => accept|reject
+
+`<eCtx>` is the challenge the harness derived *independently* from the verifier's context with the
+real transcript (domain separator, statement, commitment); `ts` are the per-repetition hash-target
+bits derived the same way.  They stand in for the hash model (`fsVerify`'s challenge oracle /
+`fischlinVerify`'s `target`) until `Model/Hash` + `Model/Transcript` are merged: then the
+challenge oracle inside `fsOn` below is the only place to change.
+-/
+namespace BronVerif.Drive.C08
+open BronVerif BronVerif.Drive BronVerif.Sigma BronVerif.Curves
+
+def curveGrp (C : Params) : Grp Pt :=
+  ⟨Curves.zero C, Curves.add C, Curves.neg C, fun P n => Curves.smul C n P⟩
+
+def splitSemi (s : String) : List String := if s == "-" || s == "" then [] else s.splitOn ";"
+
+def acc (b : Bool) : String := if b then "accept" else "reject"
+
+/-- a protocol instance together with the codecs of its line encoding -/
+structure Inst (H G : Type) where
+  P : Maurer H G
+  parseG : String → Option G
+  parseH : String → Option H
+  renderH : H → String
+
+/-- challenge bytes (hex) as the number the sigma verifier uses (big-endian) -/
+def chalNat? (s : String) : Option Nat := (hexToBytes? s).map bytesToNatBE
+
+/-- Fiat–Shamir on top of a verifier taking the numeric challenge: the proof's challenge *bytes*
+must equal the context-derived bytes -/
+def fsOn {X A Z : Type} (verify : X → A → Nat → Z → Bool) (x : X) (a : A) (eBytes eCtx : String) (z : Z) : Bool :=
+  fsVerify (fun (_ : Unit) => eCtx) (fun (_ : Unit) (_ : X) (_ : A) => ()) 
+    (fun x a (e : String) z => match chalNat? e with
+      | some n => verify x a n z
+      | none => false) () x (a, eBytes, z)
+
+def runInst {H G : Type} [DecidableEq G] (I : Inst H G) (op : String) (args : List String) (rhs : String) : Verdict :=
+  let P := I.P
+  match op, args with
+  | "verify", [xs, as, es, zs] =>
+    match I.parseG xs, I.parseG as, hexToNat? es, I.parseH zs with
+    | some x, some a, some e, some z => spec "sigma-verify" (acc (P.verify x a e z)) rhs
+    | _, _, _, _ => .unsupported "verify args"
+  | "fs", [xs, as, es, ecs, zs] =>
+    match I.parseG xs, I.parseG as, chalNat? es, chalNat? ecs, I.parseH zs with
+    | some x, some a, some _, some _, some z => spec "fs-verify" (acc (fsOn P.verify x a es ecs z)) rhs
+    | _, _, _, _, _ => .unsupported "fs args"
+  | "zk", [xs, as, es, zs, os] =>
+    match I.parseG xs, I.parseG as, hexToNat? es, I.parseH zs with
+    | some x, some a, some e, some z =>
+      let opened := zkRound4 (fun (_ _ : Unit) (_ : Nat) (_ : Unit) => os == "1") (fun _ => z) () () e ()
+      let model := match opened with
+        | some z' => P.verify x a e z'
+        | none => false
+      spec "zk-verify" (acc model) rhs
+    | _, _, _, _ => .unsupported "zk args"
+  | "sim", [xs, es, as, zs] =>
+    match I.parseG xs, hexToNat? es, I.parseG as, I.parseH zs with
+    | some x, some e, some a, some z =>
+      -- the simulated commitment is the one the model simulator computes from (x, e, z), and it verifies
+      if P.simulate x e z ≠ a then
+        (if P.verify x a e z then .diff "simulated commitment differs from model (but verifies)"
+         else .bad "sim-not-verifying" "simulated transcript does not satisfy the verification equation")
+      else spec "sim-verify" (acc (P.verify x a e z)) rhs
+    | _, _, _, _ => .unsupported "sim args"
+  | "extract", [xs, as, e1s, z1s, e2s, z2s] =>
+    match I.parseG xs, I.parseG as, hexToNat? e1s, I.parseH z1s, hexToNat? e2s, I.parseH z2s with
+    | some x, some a, some e1, some z1, some e2, some z2 =>
+      let model := P.extract x a e1 e2 z1 z2
+      if rhs.startsWith "ok:" then
+        match I.parseH (rhs.drop 3).toString with
+        | none => .unsupported "extract rhs"
+        | some w =>
+          if P.phi w ≠ x then .bad "extract-wrong-witness" "phi(w) != x for the extracted witness"
+          else match model with
+            | some wm => mirror ("ok:" ++ I.renderH wm) rhs
+            | none => .diff "model extractor refuses"
+      else match model with
+        | some wm => .bad "extract-failed" ("two accepting transcripts, model extracts " ++ I.renderH wm)
+        | none => mirror "err" rhs
+    | _, _, _, _, _, _ => .unsupported "extract args"
+  | "and", xss :: ass :: es :: zss :: fsArgs =>
+    match (splitSemi xss).mapM I.parseG, (splitSemi ass).mapM I.parseG, hexToNat? es, (splitSemi zss).mapM I.parseH with
+    | some xs, some as, some e, some zs =>
+      match fsArgs with
+      | [] => spec "and-verify" (acc (andVerify P.verify xs as e zs)) rhs
+      | [eb, ec] => spec "and-fs-verify" (acc (fsOn (andVerify P.verify) xs as eb ec zs)) rhs
+      | _ => .unsupported "and fs args"
+    | _, _, _, _ => .unsupported "and args"
+  | "or", xss :: ass :: es :: ess :: zss :: fsArgs =>
+    match (splitSemi xss).mapM I.parseG, (splitSemi ass).mapM I.parseG, hexToNat? es, parseNatList? ess, (splitSemi zss).mapM I.parseH with
+    | some xs, some as, some e, some ees, some zs =>
+      match fsArgs with
+      | [] => spec "or-verify" (acc (orVerify P.verify xs as e ees zs)) rhs
+      | [eb, ec] => spec "or-fs-verify" (acc (fsOn (fun xs as e (z : List Nat × List H) => orVerify P.verify xs as e z.1 z.2) xs as eb ec (ees, zs))) rhs
+      | _ => .unsupported "or fs args"
+    | _, _, _, _, _ => .unsupported "or args"
+  | "fischlin", [rhos, xs, ass, ess, zss, tss] =>
+    match rhos.toNat?, I.parseG xs, (splitSemi ass).mapM I.parseG, parseNatList? ess, (splitSemi zss).mapM I.parseH, parseNatList? tss with
+    | some rho, some x, some as, some ees, some zs, some ts =>
+      if as.length ≠ ees.length ∨ as.length ≠ zs.length ∨ as.length ≠ ts.length then .unsupported "fischlin lengths" else
+      let π : List (G × Nat × H) := List.zip as (List.zip ees zs)
+      let model := fischlinVerify rho (fun (_ : Unit) (_ : G) (_ : List G) => ())
+        (fun _ i _ _ => ts.getD i 0 == 1) P.verify () x π
+      spec "fischlin-verify" (acc model) rhs
+    | _, _, _, _, _, _ => .unsupported "fischlin args"
+  | _, _ => .unsupported ("C08 op " ++ op)
+
+def parseScalar (q : Nat) (s : String) : Option Nat := (hexToNat? s).map (· % q)
+
+def schnorrInst (C : Params) (g : Pt) : Inst Nat Pt :=
+  { P := schnorr (curveGrp C) C.n g, parseG := Curves.parse? C, parseH := parseScalar C.n, renderH := natToHex }
+
+def okamotoInst (C : Params) (gs : List Pt) : Inst (List Nat) Pt :=
+  { P := okamoto (curveGrp C) C.n gs, parseG := Curves.parse? C,
+    parseH := fun s => (splitComma s).mapM (parseScalar C.n),
+    renderH := fun zs => joinComma (zs.map natToHex) }
+
+def parsePair (C : Params) (s : String) : Option (Pt × Pt) :=
+  match splitComma s with
+  | [a, b] => do some ((← Curves.parse? C a), (← Curves.parse? C b))
+  | _ => none
+
+def elcomopInst (C : Params) (g pk : Pt) : Inst (Pt × Nat) (Pt × Pt) :=
+  { P := elcomop (curveGrp C) C.n g pk, parseG := parsePair C,
+    parseH := fun s => match splitComma s with
+      | [m, l] => do some ((← Curves.parse? C m), (← parseScalar C.n l))
+      | _ => none,
+    renderH := fun w => Curves.render C w.1 ++ "," ++ natToHex w.2 }
+
+def nthrootInst (n : Nat) : Inst Nat Nat :=
+  { P := nthroot n, parseG := fun s => (hexToNat? s).map (· % (n * n)),
+    parseH := fun s => (hexToNat? s).map (· % (n * n)), renderH := natToHex }
+
+def handle (op : String) (args : List String) (rhs : String) : Verdict :=
+  match op, args with
+  | "batch", [cv, gs, xss, as, es, zs] =>
+    match byName? cv with
+    | none => .unsupported "curve"
+    | some C =>
+      match Curves.parse? C gs, Curves.parseList? C xss, Curves.parse? C as, hexToNat? es, parseScalar C.n zs with
+      | some g, some xs, some a, some e, some z =>
+        spec "batch-verify" (acc (batchVerify (curveGrp C) g xs a (e % C.n) z)) rhs
+      | _, _, _, _, _ => .unsupported "batch args"
+  | "batchfs", [cv, gs, xss, as, es, ecs, zs] =>
+    match byName? cv with
+    | none => .unsupported "curve"
+    | some C =>
+      match Curves.parse? C gs, Curves.parseList? C xss, Curves.parse? C as, chalNat? es, chalNat? ecs, parseScalar C.n zs with
+      | some g, some xs, some a, some _, some _, some z =>
+        let model := fsOn (fun xs a e z => batchVerify (curveGrp C) g xs a (e % C.n) z) xs a es ecs z
+        spec "batch-fs-verify" (acc model) rhs
+      | _, _, _, _, _, _ => .unsupported "batchfs args"
+  | "batchsim", [cv, gs, xss, es, as, zs] =>
+    match byName? cv with
+    | none => .unsupported "curve"
+    | some C =>
+      match Curves.parse? C gs, Curves.parseList? C xss, hexToNat? es, Curves.parse? C as, parseScalar C.n zs with
+      | some g, some xs, some e, some a, some z =>
+        spec "batch-sim-verify" (acc (batchVerify (curveGrp C) g xs a (e % C.n) z)) rhs
+      | _, _, _, _, _ => .unsupported "batchsim args"
+  | "elog", cv :: ps :: x1s :: x2s :: a1s :: a2s :: es :: z1s :: z2s :: fsArgs =>
+    match byName? cv with
+    | none => .unsupported "curve"
+    | some C =>
+      match Curves.parseList? C ps with
+      | some [g, pk, h] =>
+        let I1 := elcomopInst C g pk
+        let I2 := schnorrInst C h
+        match I1.parseG x1s, I2.parseG x2s, I1.parseG a1s, I2.parseG a2s, hexToNat? es, I1.parseH z1s, I2.parseH z2s with
+        | some x1, some x2, some a1, some a2, some e, some z1, some z2 =>
+          let v := fun (x : (Pt × Pt) × Pt) (a : (Pt × Pt) × Pt) (e : Nat) (z : (Pt × Nat) × Nat) =>
+            I1.P.verify x.1 a.1 e z.1 && I2.P.verify x.2 a.2 e z.2
+          match fsArgs with
+          | [] => spec "elog-verify" (acc (v (x1, x2) (a1, a2) e (z1, z2))) rhs
+          | [eb, ec] => spec "elog-fs-verify" (acc (fsOn v (x1, x2) (a1, a2) eb ec (z1, z2))) rhs
+          | _ => .unsupported "elog fs args"
+        | _, _, _, _, _, _, _ => .unsupported "elog args"
+      | _ => .unsupported "elog params"
+  | _, kind :: cv :: ps :: rest =>
+    if kind == "nthroot" then
+      match hexToNat? ps with
+      | some n => if n < 2 then .unsupported "N" else runInst (nthrootInst n) op rest rhs
+      | none => .unsupported "N"
+    else
+    match byName? cv with
+    | none => .unsupported ("curve " ++ cv)
+    | some C =>
+      match kind, Curves.parseList? C ps with
+      | "schnorr", some [g] => runInst (schnorrInst C g) op rest rhs
+      | "okamoto", some gs => if gs.isEmpty then .unsupported "okamoto params" else runInst (okamotoInst C gs) op rest rhs
+      | "elcomop", some [g, pk] => runInst (elcomopInst C g pk) op rest rhs
+      | _, _ => .unsupported ("C08 kind " ++ kind)
+  | _, _ => .unsupported ("C08 op " ++ op)
 
 end BronVerif.Drive.C08
